@@ -351,4 +351,12 @@ theorem t3Mark_length (now mx : Nat) : ∀ (q : List SRec) (n : Nat), (t3Mark no
     · simp [ih]
 
 
+/-- an overtaken SACK (cumulative TSN serially behind the newest one seen) leaves `peer_rwnd` alone
+(fix 5cfc04a) -/
+theorem overtaken_sack_keeps_window (s : Tx) (h : SackHist) (cum : UInt32) (arwnd : Nat)
+    (gaps : List (UInt16 × UInt16)) (now mx : Nat) (hold : tsnGt h.peerCumAck cum = true) :
+    (handleSackTx s h cum arwnd gaps now mx).1.peerRwnd = s.peerRwnd := by
+  simp [handleSackTx, hold, transmit]
+
+
 end RtcModel.Sctp
